@@ -371,12 +371,20 @@ func TestVerif_Daemon(t *testing.T) {
 			return
 		}
 		_, good = scanComplete(r.outDir)
-		// ---- phase 3: restart; clean-up must have happened before the daemon is ready again
+		// ---- phase 3: restart; clean-up must have happened before the daemon is ready again.
+		// The operator has switched the continuous recorder off in the meantime: what the previous
+		// run left in constant-recordings/ is debris all the same.
+		cfgOff := *cfg
+		cfgOff.Constant = false
+		if err := ioutil.WriteFile(filepath.Join(r.confDir, "config.toml"), []byte(cfgOff.toml(r.outDir, r.frameSock)), 0644); err != nil {
+			c.Inconclusive(err.Error())
+			return
+		}
 		if err := r.startDaemon(bin); err != nil {
 			c.Inconclusive("daemon restart: " + err.Error())
 			return
 		}
-		if !judge("after SIGKILL in mid-recording and restart") {
+		if !judge("after SIGKILL in mid-recording and restart with the continuous recorder switched off") {
 			return
 		}
 		c.Count("daemon_startups_checked", 1)
